@@ -27,7 +27,7 @@ type pooledMsg interface {
 }
 
 var poolGetters = map[protoreflect.FullName]func() pooledMsg{
-	"mvcc.v1.Command":             func() pooledMsg { return pb.CommandFromVTPool() },
+	"mvcc.v1.Command":              func() pooledMsg { return pb.CommandFromVTPool() },
 	"replication.v1.SnapshotChunk": func() pooledMsg { return pb.SnapshotChunkFromVTPool() },
 }
 
